@@ -1,0 +1,23 @@
+//go:build verif
+
+package importer
+
+import (
+	"github.com/subchen/go-xmldom"
+	"github.com/tableauio/tableau/internal/importer/book"
+)
+
+// VerifXMLDataToNode converts one XML data document (the root element text) to
+// the book node tree confgen parses (verification hook; compiled only with the
+// "verif" build tag).
+func VerifXMLDataToNode(rawDoc string) (*book.Node, error) {
+	doc, err := xmldom.ParseXML(rawDoc)
+	if err != nil {
+		return nil, err
+	}
+	bnode := &book.Node{}
+	if err := parseXMLNode(doc.Root, bnode, UnknownMode); err != nil {
+		return nil, err
+	}
+	return bnode, nil
+}
